@@ -198,6 +198,8 @@ pub struct Profile {
     pub max_width: usize,
     /// share (in 1/16) of medium sized instances (12-20 variables), with widths up to 8
     pub medium_share: u64,
+    /// share (in 1/32) of large instances (20-36 variables): long searches, fringes of hundreds of nodes
+    pub large_share: u64,
     /// (kept for compatibility) the 'weak' dominance rule of family T exposed finding H7 (fixed by 0354425): all campaigns use it now
     pub weak_t_dominance: bool,
 }
@@ -214,10 +216,12 @@ pub fn random_spec(rng: &mut Rng, p: &Profile) -> CaseSpec {
     let fam = if p.long_arcs_only { match rng.below(5) { 0 | 1 => 'T', 2 | 3 => 'P', _ => 'Q' } }
         else if p.only_all_impacted { if rng.chance(2, 3) { 'T' } else { 'K' } }
         else { match rng.below(11) { 0..=4 => 'T', 5 | 6 => 'K', 7..=9 => 'P', _ => 'Q' } };
-    let medium = p.medium_share > 0 && rng.below(16) < p.medium_share;
+    let large = p.large_share > 0 && rng.below(32) < p.large_share && !p.long_arcs_only;
+    let medium = !large && p.medium_share > 0 && rng.below(16) < p.medium_share;
+    let fam = if large && fam == 'Q' { 'K' } else { fam };
     let size = match fam {
         'T' => {
-            let mut s = if medium { SZ_MEDIUM } else if p.small && rng.chance(1, 2) { SZ_SMALL } else { SZ_TINY };
+            let mut s = if large { SZ_LARGE } else if medium { SZ_MEDIUM } else if p.small && rng.chance(1, 2) { SZ_SMALL } else { SZ_TINY };
             if p.long_arcs_only { s |= F_IRRELEVANCE; }
             else if !p.only_all_impacted && rng.chance(1, 5) { s |= F_IRRELEVANCE; }
             else if rng.chance(if p.depth_free_bias { 3 } else { 1 }, 4) { s |= F_DEPTH_FREE; }
@@ -229,18 +233,24 @@ pub fn random_spec(rng: &mut Rng, p: &Profile) -> CaseSpec {
             s
         }
         'Q' => if medium { QSZ_MEDIUM } else if p.small && rng.chance(1, 2) { QSZ_SMALL } else { QSZ_TINY },
-        'K' => if medium { KSZ_MEDIUM } else if p.reconvergent { KSZ_FEWWEIGHTS } else if p.small && rng.chance(1, 2) { KSZ_SMALL } else { *rng.pick(&[KSZ_TINY, KSZ_TINY, KSZ_FEWWEIGHTS]) },
-        _ => if medium { PSZ_MEDIUM } else if p.reconvergent { PSZ_SPARSE } else if p.small && rng.chance(1, 2) { PSZ_SMALL } else { *rng.pick(&[PSZ_TINY, PSZ_TINY, PSZ_SPARSE]) },
+        'K' => if large { KSZ_LARGE } else if medium { KSZ_MEDIUM } else if p.reconvergent { KSZ_FEWWEIGHTS } else if p.small && rng.chance(1, 2) { KSZ_SMALL } else { *rng.pick(&[KSZ_TINY, KSZ_TINY, KSZ_FEWWEIGHTS]) },
+        _ => if large { PSZ_LARGE } else if medium { PSZ_MEDIUM } else if p.reconvergent { PSZ_SPARSE } else if p.small && rng.chance(1, 2) { PSZ_SMALL } else { *rng.pick(&[PSZ_TINY, PSZ_TINY, PSZ_SPARSE]) },
     };
     let variant = random_variant(rng, p.with_dominance);
     let dd = if p.no_pooled { *rng.pick(&[DdKind::Lel, DdKind::Fc]) } else { *rng.pick(&DdKind::ALL) };
-    let maxw = if medium { 8 } else if p.max_width == 0 { 4 } else { p.max_width };
+    let maxw = if large { 12 } else if medium { 8 } else if p.max_width == 0 { 4 } else { p.max_width };
     let width = match rng.below(10) {
         0 => WidthKind::NbUnassigned,
         1 => WidthKind::Times(rng.usize(3), 1 + rng.usize(2)),
         2 => WidthKind::DivBy(1 + rng.usize(3), 1 + rng.usize(4)),
         _ => WidthKind::Fixed(1 + rng.usize(maxw)),
     };
+    // large instances: keep the search tractable (an admissible bound, widths >= 3)
+    let (variant, width) = if large {
+        let mut v = variant;
+        if v.rub == RubKind::None { v.rub = RubKind::Exact; }
+        (v, match width { WidthKind::Fixed(w) if w < 3 => WidthKind::Fixed(w + 3), WidthKind::Times(_, _) | WidthKind::DivBy(_, _) => WidthKind::Fixed(6), w => w })
+    } else { (variant, width) };
     let cfg = Cfg::seq(dd, rng.chance(1, 2), if rng.chance(1, 2) { FringeKind::Simple } else { FringeKind::NoDup }, width);
     CaseSpec { family: fam, gen_seed: rng.next() >> 16, size, variant, cfg }
 }
